@@ -196,6 +196,8 @@ impl<K: SimK, V: SimV, const N: usize, const M: usize> World<K, V, N, M> {
                 | Op::SAlg { .. }
                 | Op::SRel { .. }
                 | Op::SSub { .. }
+                | Op::SDiffRef { .. }
+                | Op::SExtendRef { .. }
         ) || matches!(op, Op::Fmt { set: true, .. } | Op::Serde { set: true, .. } | Op::Fill { set: true, .. } | Op::Relocate { set: true, .. } | Op::DropNew { set: true, .. })
             || matches!(op, Op::Overflow { via, .. } if matches!(via, crate::plan::Via::SetInsert | crate::plan::Via::SetReplace | crate::plan::Via::SetCollect | crate::plan::Via::SetFromArr | crate::plan::Via::SetExtend))
             || matches!(op, Op::FmtIter { which, .. } if *which >= 4);
